@@ -501,6 +501,12 @@ func parentMain(propID, tier string, seed uint64, outPath string, only *WireCase
 	}
 	timeout := p.Timeout(tier)
 	wall := p.Wall(tier)
+	if v := os.Getenv("VERIF_WALL_S"); v != "" { // the widened search of a quick check is capped
+		var secs int
+		if _, err := fmt.Sscanf(v, "%d", &secs); err == nil && secs > 0 && time.Duration(secs)*time.Second < wall {
+			wall = time.Duration(secs) * time.Second
+		}
+	}
 	type item struct {
 		wc WireCase
 		oc Outcome
